@@ -85,7 +85,7 @@ Print Assumptions C05_last_prev_enumerates.
 (** ---- the hypothesis of the refinement theorems above, "a committed tree has no emptied leaf", is no longer only monitored:
     it is a theorem about Tree.v, the model of what Tx.Commit does to a bucket's tree (node.rebalance + node.spill), which is
     compared with the real commit on every generated case (tree before, visit order, tree after) ---- *)
-From Bbolt Require Node Tree TreeProofs.
+From Bbolt Require Node Tree TreeProofs TreeCursorProofs.
 Module CommittedTrees.
 Import Node Tree TreeProofs.
 
@@ -99,4 +99,18 @@ Theorem C05_no_emptied_page_survives_a_commit : forall ps fill fuel t order t' e
   exists d', wf d' t' /\ forall f, (d' < f)%nat -> no_empty f true t' = true.
 Proof. exact commit_tree_no_empty_b. Qed.
 Print Assumptions C05_no_emptied_page_survives_a_commit.
+
+(** ... and in the cursor model's own terms: translated to the tree type the cursor theorems speak about (Cursor.tree), the committed tree has
+    no emptied leaf - exactly the hypothesis of the refinement theorems above - and flattens to the same list as before the commit *)
+Import TreeCursorProofs.
+Theorem C05_committed_tree_meets_the_cursor_hypothesis : forall ps fill fuel t order t' evs d,
+  wf d t -> (d < fuel)%nat -> closed false t -> NoDup (ids t) -> good order t ->
+  commit_tree ps fill fuel t order = Ok (t', evs) -> Cursor.has_empty_leaf (to_ctree t') = false.
+Proof. exact commit_tree_no_empty_leaf. Qed.
+Print Assumptions C05_committed_tree_meets_the_cursor_hypothesis.
+
+Theorem C05_commit_keeps_the_enumeration : forall ps fill fuel t order t' evs,
+  aligned t -> commit_tree ps fill fuel t order = Ok (t', evs) -> Cursor.flatten (to_ctree t') = Cursor.flatten (to_ctree t).
+Proof. exact commit_tree_cursor_flatten. Qed.
+Print Assumptions C05_commit_keeps_the_enumeration.
 End CommittedTrees.
